@@ -139,19 +139,34 @@ class FileCache:
         claim = len(new_file_contents)
         if claim > self.max_memory:
             raise MemoryError(f"requested file update larger than max_memory: {file_name} {claim} {self.max_memory}")
-        with self.file_futures_lock:
-            info = self.file_futures.get(file_name)
-            if info is None or not info[0]:
-                self._unload_file(file_name)
-                future = self.executor.submit(self._write_file, file_name, new_file_contents, use_fsync)
-                self.file_futures[file_name] = (True, claim, future)
-                write_applied = True
-            else:
-                assert info[0]
-                future = info[-1]
-                write_applied = False
+        while True:
+            with self.file_futures_lock:
+                info = self.file_futures.get(file_name)
+                if info is None or (not info[0] and info[-1].done()):
+                    self._unload_file(file_name)
+                    future = self.executor.submit(self._write_file, file_name, new_file_contents, use_fsync)
+                    self.file_futures[file_name] = (True, claim, future)
+                    write_applied = True
+                    break
+                elif info[0]:
+                    future = info[-1]
+                    write_applied = False
+                    break
+                # a load of this file is still in flight: let it finish before replacing the entry
+                pending = info[-1]
+            self._wait_for(pending)
         future.result()
         return write_applied
+
+    @staticmethod
+    def _wait_for(future):
+        """
+        Wait for an in-flight load or write to finish, ignoring its outcome.
+        """
+        try:
+            future.result()
+        except Exception:
+            pass
 
     def _unload_file(self, file_name):
         """
@@ -179,10 +194,17 @@ class FileCache:
         Returns:
         None
         """
-        with self.file_futures_lock:
-            self.file_access_times = [(t, fn) for t, fn in self.file_access_times if fn != file_name]
-            heapq.heapify(self.file_access_times)
-            self._unload_file(file_name)
+        while True:
+            with self.file_futures_lock:
+                info = self.file_futures.get(file_name)
+                if info is None or (not info[0] and info[-1].done()):
+                    self.file_access_times = [(t, fn) for t, fn in self.file_access_times if fn != file_name]
+                    heapq.heapify(self.file_access_times)
+                    self._unload_file(file_name)
+                    return
+                # a load or write of this file is still in flight: its accounting is not settled yet
+                pending = info[-1]
+            self._wait_for(pending)
 
     def recover_memory(self, claim):
         """
